@@ -231,7 +231,8 @@ def run_stream(c, focus):
     apalache_inductive(c, full=c.thorough)
     # (d) real constants: graph -> every edge replayed on the real code
     if focus == "C11":
-        plans = [(4, "c11t")] if c.thorough else [(3, "c11")]
+        # thorough: the wide limit alphabets to depth 3 and the quick ones to depth 4 (depth 4 x wide is > 2 M calls per build)
+        plans = [(3, "c11t"), (4, "c11")] if c.thorough else [(3, "c11")]
     else:
         # depth 4 over the thorough alphabets is 3.2 M calls per build (TLC needs hours to validate them): thorough takes the
         # wide alphabets to depth 3 and the quick alphabets to depth 4 instead
